@@ -43,6 +43,8 @@ func init() {
 			ruleDispatchLoopsSurvive(r, "R12", "/wire", "/iscp") // every result of a batched ack reaches its waiter
 			ruleC01R13(r)
 			ruleC01R14(r)
+			ruleC01R15(r)
+			ruleC01R16(r)
 			r.borrow("C20", func() { ruleC20P5(r, cut) }) // what counts as an empty buffer decides whether buffered points are ever sent and acknowledged
 		},
 	})
@@ -1181,4 +1183,118 @@ func ruleC01R14(r *Run) {
 		})
 	})
 	r.Check(name+" waits for the ack hooks", joins, p.pos(cl.Pos()), name, "the ack hook is called by the event dispatcher goroutine (queued at "+posOf(p, where)+"), and Close does not wait for that goroutine: it returns while results are still in the dispatcher's queue, so the hook has not been given every result by the time Close returns")
+}
+
+// ruleC01R15: WriteDataPoints returns before the flush loop has looked at the group it was handed. What the group
+// refers to must therefore belong to the library: the points slice is made in WriteDataPoints (a copy), and the data id
+// is a copy as well — not the caller's variadic slice and pointer, which the caller may reuse for its next write.
+func ruleC01R15(r *Run) {
+	r.Begin("R15", "the hand-over owns its data: the DataPointGroup that (*Upstream).WriteDataPoints sends to the flush loop carries a points slice made in WriteDataPoints and a data id allocated there, not the caller's slice and pointer", 2)
+	p := r.P
+	w := r.method("/iscp", "Upstream", "WriteDataPoints")
+	dpg := r.named("/iscp", "DataPointGroup")
+	if w == nil || dpg == nil {
+		return
+	}
+	name := fnName(w)
+	n := 0
+	for _, lit := range literalsOf(w, dpg) {
+		n++
+		for _, f := range []string{"DataPoints", "DataID"} {
+			v, has := lit.Fields[f]
+			if !has {
+				r.Check(name+" hand-over "+f, false, p.pos(lit.Alloc.Pos()), name, f+" not set")
+				continue
+			}
+			cv := canonVal(v)
+			if ct, isCT := cv.(*ssa.ChangeType); isCT {
+				cv = canonVal(ct.X)
+			}
+			own := false
+			switch x := cv.(type) {
+			case *ssa.MakeSlice:
+				own = true
+			case *ssa.Alloc:
+				own = x.Parent() == w
+			case *ssa.Call:
+				// append([]T(nil), dps...) and slices.Clone make a new backing array
+				if b, isB := x.Call.Value.(*ssa.Builtin); isB && b.Name() == "append" {
+					own = isNilConst(x.Call.Args[0])
+				} else if o := calleeObj(&x.Call); o != nil && o.Pkg() != nil && o.Pkg().Path() == "slices" && o.Name() == "Clone" {
+					own = true
+				}
+			case *ssa.Slice:
+				if mk, isMk := canonVal(x.X).(*ssa.MakeSlice); isMk && mk != nil {
+					own = true
+				}
+				if a, isA := x.X.(*ssa.Alloc); isA && a.Parent() == w {
+					own = true
+				}
+			}
+			l := p.Leaves(v, provOpts{})
+			r.Check(name+" hand-over "+f, own, p.pos(lit.Alloc.Pos()), name, f+" of the group handed to the flush loop derives from ["+joinLeaves(l)+"]: the loop reads it after WriteDataPoints has returned, so a caller that reuses its slice or data id for the next write changes points that were accepted already")
+		}
+	}
+	if n == 0 {
+		r.Undecided(name+" hand-over", "no DataPointGroup literal in WriteDataPoints")
+	}
+}
+
+// ruleC01R16: "each result has been reported to the ack hook exactly once". The broker may repeat a result, or send one
+// for a sequence number that is not outstanding; the hook is queued only where the result was matched to a waiting
+// chunk: on the success edge of the call that looks the waiter up (and removes it).
+func ruleC01R16(r *Run) {
+	r.Begin("R16", "the ack hook is queued once per outstanding chunk: in readResultLoop the addHandler call that carries ReceiveAckHooker.HookAfter is dominated by the success edge of the call that looks up (and removes) the chunk's waiter in upstreamChunkResultChs", 1)
+	p := r.P
+	for _, h := range p.moduleCalls("/iscp.ReceiveAckHooker.HookAfter") {
+		cl := h.Parent()
+		if cl.Parent() == nil {
+			continue
+		}
+		_, uses, okv := funcValueUses(cl)
+		if !okv {
+			continue
+		}
+		for _, u := range uses {
+			if !isCallNamed(u, "/iscp.eventDispatcher.addHandler") {
+				continue
+			}
+			host := u.Parent()
+			name := fnName(host)
+			ok := false
+			allInstrs(host, func(ins ssa.Instruction) {
+				c, isC := ins.(*ssa.Call)
+				if !isC {
+					return
+				}
+				cal := c.Call.StaticCallee()
+				if cal == nil || !p.Analysed(cal) {
+					return
+				}
+				looks := false
+				allInstrs(cal, func(x ssa.Instruction) {
+					if lk, isL := x.(*ssa.Lookup); isL {
+						if uu, isU := lk.X.(*ssa.UnOp); isU && fieldKeyOfAddr(uu.X) == "/iscp.Upstream.upstreamChunkResultChs" {
+							looks = true
+						}
+					}
+				})
+				if !looks {
+					return
+				}
+				var res ssa.Value = c
+				if c.Referrers() != nil {
+					for _, ref := range *c.Referrers() {
+						if ex, isEx := ref.(*ssa.Extract); isEx {
+							res = ex
+						}
+					}
+				}
+				if condTrueDominates(host, res, u) {
+					ok = true
+				}
+			})
+			r.Check(name+" queues the ack hook for outstanding chunks only", ok, posOf(p, u), name, "the hook is queued whether or not the result belongs to a chunk that is still waiting for one: a result the broker sends twice reaches the hook twice, and a result for a sequence number that was never issued is reported too")
+		}
+	}
 }
